@@ -6,6 +6,7 @@
   depth or string length.
 -/
 import Gedcom.Lemmas.RoundTrip
+import Gedcom.Lemmas.MultiLine
 import Gedcom.Generated.DecoderFacts
 import Gedcom.Generated.EncoderFacts
 namespace Gedcom.C01
@@ -128,5 +129,54 @@ theorem renderLine_is_the_source_program (l : Line) :
 theorem encoder_source_facts :
     Generated.gedcomLineMethods = 1 ∧ Generated.lineTerminator = [LF] ∧
     Generated.childIndentDelta = 1 ∧ Generated.encodeBOMFirst = true := by decide
+
+/-- **Round trip with multi-line values.** `AllowMultiLine` makes the decoder return documents
+    whose values contain line feeds (every blank or unparsable line continues the previous value);
+    `Document.String()` writes such a value over several physical lines.  For every document that
+    satisfies `legalMLDocB` — tags, pointers and record lines as in `Legal`; values in trimmed form
+    without carriage returns, whose parts after each line feed are lines the decoder would again
+    treat as continuations at that position (blank, not in the line grammar, or a HUSB/WIFE/CHIL
+    line before any family) — decoding the encoder's text with `AllowMultiLine` yields exactly the
+    same document, with or without `AllowInvalidIndents`.  Every `Legal` document satisfies the
+    hypothesis (`legalML_of_legal` below), and the harness asks the model to evaluate it on every
+    document the real decoder returns under `AllowMultiLine`. -/
+theorem decode_encode_multiline (d : Doc) (h : legalMLDocB d = true) (o : Opts)
+    (hm : o.allowMultiLine = true) : decode o (encode d) = .ok d := by
+  unfold decode
+  rw [stripBOM_encode]
+  simp only
+  have hinit : TopOK (⟨[], [], false⟩ : St) := by intro f fs hf; simp at hf
+  obtain ⟨s', n', hrun, _, htop, _, hclose⟩ :=
+    runF_ML o hm d.nodes 0 ⟨[], [], false⟩ 1 [] (by simp) hinit h
+  simp only [List.append_nil] at hrun
+  have : splitLines (encForest 0 d.nodes) = splitLines.go (encForest 0 d.nodes) [] := rfl
+  rw [this, hrun]
+  have h0 : closeTo 0 (⟨[], [], false⟩ : St) = ⟨[], [], false⟩ := by simp [closeTo, closeN]
+  by_cases hs : (o.allowMultiLine && !s'.stack.isEmpty) = true
+  · have hlast : run o s' n' (splitLines.go [] []) = .inr (appendTop [LF] s') := by
+      simp [splitLines.go, run, step, hs]
+    rw [hlast]
+    simp only [trimTop_appendTop_LF s' htop, hclose, h0]
+    simp [attach, setFam]
+  · have hlast : run o s' n' (splitLines.go [] []) = .inr s' := by
+      simp [splitLines.go, run, step, hs]
+    rw [hlast]
+    simp only [trimTop_of_TopOK s' htop, hclose, h0]
+    simp [attach, setFam]
+
+/-- the hypothesis of `decode_encode_multiline` is weaker than `Legal` -/
+theorem legalML_of_legal (d : Doc) (h : Legal d) : legalMLDocB d = true :=
+  legalMLF_of_legal false d.nodes h.nodes h.roles
+
+/-- non-vacuity: a NOTE whose value runs over three physical lines (one of them blank) below a
+    record, a second root after it -/
+example :
+    legalMLDocB ⟨false, [.mk [73, 78, 68, 73] [] [73, 49]
+        [.mk [78, 79, 84, 69] [97, 10, 10, 98, 32, 99] [] []],
+      .mk [88] [49] [] []]⟩ = true := by
+  simp [legalMLDocB, legalMLF, legalMLT, legalHdrMLB, splitLF, contOKB, parseLine, parsePtr,
+    trimSpace, trimLeft, trimLeftRev, trimL, prefLen, spaceSeqs, spaceSeqsRev, famAfterT,
+    famAfterF, isRoleTag, isRecordTag, tINDI, tFAM, tHUSB, tWIFE, tCHIL, isWord, isDigit, LF, CR,
+    AT, SP, List.isPrefixOf]
 
 end Gedcom.C01
